@@ -26,10 +26,17 @@ func (d *PathDecoder) attrValueCompletionAtPos(ctx context.Context, attr *hclsyn
 	}
 	count := len(candidates.List)
 
+	if uint(count) >= d.maxCandidates {
+		// the candidates of the expression itself were left out
+		candidates.IsComplete = false
+	}
+
 	if uint(count) < d.maxCandidates {
 		expr := d.newExpression(attr.Expr, schema.Constraint)
 		for _, candidate := range expr.CompletionAtPos(ctx, pos) {
 			if uint(count) >= d.maxCandidates {
+				// there are more candidates than we return
+				candidates.IsComplete = false
 				return candidates, nil
 			}
 
